@@ -641,6 +641,7 @@ func main() {
 	layouts := map[string][]int{}
 	totals := map[string]int{}
 	skipped := map[string]bool{}
+	var dryFailed []string
 	bounds := map[string]map[int]bool{}
 	for name := range scripts {
 		dry := runCase(caseT{Script: name, Cut: -1, Fault: "none"})
@@ -652,15 +653,22 @@ func main() {
 			skipped[name] = true
 			continue
 		}
+		// a script whose calls return, but with an error, although nothing was cut: termination (what C10 is about)
+		// holds, so this is no verdict - but the script cannot be used for the fault enumeration.  The others go on
+		// (they may well show what is wrong); the check decides what an unused script means for its result.
+		bad := ""
 		if dry.hung || len(dry.rets) == 0 {
-			out.Summary(map[string]interface{}{"infra_error": fmt.Sprintf("dry run of script %s failed: %+v", name, dry)})
-			return
+			bad = fmt.Sprintf("dry run of script %s failed: %+v", name, dry)
 		}
 		for _, r := range dry.rets {
-			if r["res"] != "ok" {
-				out.Summary(map[string]interface{}{"infra_error": fmt.Sprintf("dry run of script %s: command %v failed: %v", name, r["i"], r["err"])})
-				return
+			if bad == "" && r["res"] != "ok" {
+				bad = fmt.Sprintf("dry run of script %s: command %v failed: %v", name, r["i"], r["err"])
 			}
+		}
+		if bad != "" {
+			dryFailed = append(dryFailed, bad)
+			skipped[name] = true
+			continue
 		}
 		layouts[name], totals[name] = dry.layout, dry.total
 	}
@@ -753,7 +761,7 @@ func main() {
 	close(jobs)
 	wg.Wait()
 	out.Summary(map[string]interface{}{"behaviours": len(cases), "traces": len(cases), "records": records, "steps": records, "nontrivial": nontriv, "samples": samples,
-		"layouts": layouts})
+		"layouts": layouts, "dry_run_failures": dryFailed})
 }
 
 func isBoundary(layout []int, k int) bool {
